@@ -401,6 +401,91 @@ def main():
         return reads[0].lineno > joins[0].lineno
     g.attempt("ao.stopSnapshotAfterJoin", True, stop_snapshot_after_join)
 
+    def tracked_cap_is_test_cap():
+        # every creation of posted_events_queue bounds it by the very expression the capacity test compares its length with
+        cls = find_class(ao, "ActiveObject")
+        makes = [n for n in ast.walk(cls) if isinstance(n, ast.Assign) and any(unparse(t) == "self.posted_events_queue" for t in n.targets)]
+        if not makes:
+            raise ValueError("no creation of posted_events_queue found")
+        bounds = set()
+        for m in makes:
+            v = m.value
+            if not (isinstance(v, ast.Call) and unparse(v.func) == "deque"):
+                raise ValueError("posted_events_queue is not created as a deque")
+            kw = [k for k in v.keywords if k.arg == "maxlen"]
+            if len(kw) != 1:
+                raise ValueError("posted_events_queue: no maxlen")
+            bounds.add(unparse(kw[0].value))
+        tests = [n for n in ast.walk(cls) if isinstance(n, ast.Compare) and "len(self.posted_events_queue)" == unparse(n.left)
+                 and len(n.ops) == 1 and isinstance(n.ops[0], ast.Lt)]
+        if len(tests) != 1:
+            raise ValueError("expected exactly one `len(self.posted_events_queue) < capacity` test")
+        return bounds == {unparse(tests[0].comparators[0])}
+    g.attempt("ao.trackedCapIsTestCap", True, tracked_cap_is_test_cap)
+
+    def tracking_locked():
+        # every rewrite of posted_events_queue (append / pop / rotate ...), the capacity test and stop()'s snapshot happen under
+        # `with self.posted_events_lock:`
+        cls = find_class(ao, "ActiveObject")
+        parent = {}
+        for n in ast.walk(cls):
+            for ch in ast.iter_child_nodes(n):
+                parent[ch] = n
+
+        def under_lock(n):
+            while n in parent:
+                n = parent[n]
+                if isinstance(n, ast.With) and any(unparse(it.context_expr) == "self.posted_events_lock" for it in n.items):
+                    return True
+            return False
+        sites = [n for n in ast.walk(cls) if isinstance(n, ast.Call) and isinstance(n.func, ast.Attribute)
+                 and unparse(n.func.value) == "self.posted_events_queue"
+                 and n.func.attr in ("append", "appendleft", "pop", "popleft", "rotate", "remove", "clear", "insert", "extend")]
+        sites += [n for n in ast.walk(cls) if isinstance(n, ast.Compare) and unparse(n.left) == "len(self.posted_events_queue)"]
+        sites += [n for n in ast.walk(cls) if isinstance(n, (ast.ListComp, ast.For)) and
+                  "self.posted_events_queue" in unparse(n.generators[0].iter if isinstance(n, ast.ListComp) else n.iter)
+                  and not unparse(n.generators[0].iter if isinstance(n, ast.ListComp) else n.iter).startswith("reversed(range(")]
+        if len(sites) < 4:
+            raise ValueError("fewer uses of posted_events_queue than expected (%d)" % len(sites))
+        flags = [under_lock(n) for n in sites]
+        loops = [n for n in ast.walk(cls) if isinstance(n, ast.For) and "len(self.posted_events_queue)" in unparse(n.iter)]
+        flags += [under_lock(n) for n in loops]
+        if all(flags):
+            return True
+        if not any(flags):
+            return False
+        raise ValueError("posted_events_queue is used partly under posted_events_lock, partly outside it")
+    g.attempt("ao.trackingLocked", True, tracking_locked)
+
+    def stop_clears_flag_first():
+        fn = ao_method("stop")
+        clears = [s for s in fn.body if isinstance(s, ast.Expr) and unparse(s.value) == "self.activeobject_task_event.clear()"]
+        appends = [n for n in ast.walk(fn) if isinstance(n, ast.Call) and unparse(n.func) in ("self.queue.append", "self.queue.appendleft")]
+        if len(appends) != 1:
+            raise ValueError("stop: expected exactly one append of the STOP event to self.queue")
+        if "STOP_ACTIVE_OBJECT_SIGNAL" not in unparse(appends[0]):
+            raise ValueError("stop: the appended event is not the STOP event")
+        return len(clears) >= 1 and clears[0].lineno < appends[0].lineno
+    g.attempt("ao.stopClearsFlagFirst", True, stop_clears_flag_first)
+
+    def stop_own_join_guarded():
+        fn = ao_method("stop")
+        for s in fn.body:
+            if isinstance(s, ast.Try) and any(unparse(n.func) == "self.thread.join" for n in ast.walk(s)
+                                               if isinstance(n, ast.Call)):
+                in_body = any(unparse(n.func) == "self.thread.join" for b in s.body for n in ast.walk(b) if isinstance(n, ast.Call))
+                catches = any(h.type is None or unparse(h.type) in ("RuntimeError", "Exception", "BaseException") or
+                              (isinstance(h.type, ast.Tuple) and any(unparse(x) == "RuntimeError" for x in h.type.elts))
+                              for h in s.handlers)
+                reraises = any(isinstance(n, ast.Raise) for h in s.handlers for n in ast.walk(h))
+                cancel_inside = any(unparse(n.func) in ("self.cancel_events", "self.cancel_event")
+                                    for b in s.body for n in ast.walk(b) if isinstance(n, ast.Call))
+                if cancel_inside:
+                    raise ValueError("stop: the cancel loop is inside the try block of the join")
+                return in_body and catches and not reraises
+        return False
+    g.attempt("ao.stopOwnJoinGuarded", True, stop_own_join_guarded)
+
     # ---- active object: publish / subscribe wrappers ---------------------------
     def wrapper_always_calls():
         res = []
@@ -604,6 +689,10 @@ def main():
         b(v["ao.checkBeforeStart"]), b(v["ao.cancelEq"]), b(v["ao.cancelLocked"])))
     lines.append("def fabStartChecksOwnThread : Bool := " + b(v["fab.startChecksOwnThread"]))
     lines.append("def aoStopSnapshotAfterJoin : Bool := " + b(v["ao.stopSnapshotAfterJoin"]))
+    lines.append("def aoTrackedCapIsTestCap : Bool := " + b(v["ao.trackedCapIsTestCap"]))
+    lines.append("def aoTrackingLocked : Bool := " + b(v["ao.trackingLocked"]))
+    lines.append("def aoStopClearsFlagFirst : Bool := " + b(v["ao.stopClearsFlagFirst"]))
+    lines.append("def aoStopOwnJoinGuarded : Bool := " + b(v["ao.stopOwnJoinGuarded"]))
     lines.append("def fabSubscribeLocked : Bool := " + b(v["fab.subscribeLocked"]))
     lines.append("end Miros.Gen")
     text = "\n".join(lines) + "\n"
